@@ -158,7 +158,7 @@ impl Prop for C14 {
         "exploration"
     }
     fn rule(&self, _t: Tier) -> String {
-        "full product of lossy Relation values over 2 names x {no, 'any'} qualifier x {none, >= 1, << 2:1.0-1} x 6 architecture lists (None, empty, 1-2 plain, 1-2 negated) x 71 profile lists (no group; every one-group shape of 1-3 terms with every negation pattern; two groups) (5112 values), and every Relations value of <= 2 entries x <= 2 alternatives (thorough: <= 3 x <= 2) over a 12-element subset; each is printed, re-read by both readers, converted lossy->lossless->lossy and Entry<->Vec; all cases distinct; non-trivial = value with at least one optional part or more than one relation".into()
+        "full product of lossy Relation values over 2 names x {no, 'any'} qualifier x {none, >= 1, << 2:1.0-1} x 6 architecture lists (None, empty, 1-2 plain, 1-2 negated) x 71 profile lists (no group; every one-group shape of 1-3 terms with every negation pattern; two groups) (5112 values), and every Relations value of <= 2 entries x <= 2 alternatives (thorough: also 3 entries x <= 2 alternatives over a 6-element subset) over a 12-element subset; each is printed, re-read by both readers, converted lossy->lossless->lossy and Entry<->Vec; all cases distinct; non-trivial = value with at least one optional part or more than one relation".into()
     }
     fn bounds(&self, t: Tier) -> Value {
         json!({"single_relations": menus().iter().product::<usize>(), "subset": subset().len(), "max_entries": t.pick(2, 3), "max_alternatives": 2})
@@ -177,9 +177,13 @@ impl Prop for C14 {
             return;
         }
         // fields with `shard` entries, each of 1..=2 alternatives over the subset
-        let sub = subset();
-        let n = sub.len();
+        let mut sub = subset();
         let entries = shard;
+        if entries >= 3 {
+            // three-entry fields: a 6-element subset (the full 12 would be 2.4e7 fields in one shard)
+            sub = vec![sub[0], sub[2], sub[4], sub[6], sub[8], sub[10]];
+        }
+        let n = sub.len();
         // each entry: (alts count 1|2, idx0, idx1)
         let mut m = vec![];
         for _ in 0..entries {
